@@ -150,4 +150,18 @@ def templates(tier="quick"):
     files = {"build.ninja.in": va.manifest(), "s": "s-v0\n"}
     T.append(scenario("c20/manifest_regen/built", "c20", [va, vb], files=files, ops=ops, init=[nb], depth=d,
                       tags=["output", "manifest-regen"]))
+    # ... whose prerequisites include a restat statement that prunes another one while the manifest is brought up to date (the
+    # totals of that first build shrink; no statement has a recorded duration yet at that point)
+    def regen2(name, ver):
+        return Variant(name, [Stmt("r", ex=["t"], restat=True, prints=P("line", "r")), Stmt("mid", ex=["r"], prints=P("line", "mid")),
+                              Stmt("x", ex=["s"], prints=P("none", "x")),
+                              Stmt("build.ninja", ex=["build.ninja.in"], im=["mid", "x"], generator=True, copy=True),
+                              Stmt("a", ex=["u"], ver=ver, prints=P("line", "a"))], defaults=["a"])
+    va, vb = regen2("m0", 0), regen2("m1", 1)
+    extra = [{"op": "write", "path": "build.ninja.in", "content": vb.manifest(), "label": "build.ninja.in:=m1"},
+             {"op": "touch", "path": "t", "label": "touch t"}]
+    ops, nb = _ops(va, js=(1, 2), extra=extra)
+    files = {"build.ninja.in": va.manifest(), "s": "s-v0\n", "t": "t-v0\n", "u": "u-v0\n"}
+    T.append(scenario("c20/manifest_regen_restat_prune/built", "c20", [va, vb], files=files, ops=ops, init=[nb], depth=min(d, 4),
+                      tags=["output", "manifest-regen", "restat"]))
     return T
